@@ -672,6 +672,32 @@ fn generate_server_role(rng: &mut Rng, thorough: bool, which: &str) -> Vec<Case>
                 }
             }
         }
+        // streams that are NOT WebTransport streams and never end: reserved (GREASE) and unknown
+        // unidirectional types, QPACK streams, a bidirectional stream holding a GREASE frame -- each with
+        // some bytes behind the type and left open -- then healthy streams of both kinds (C07: whatever
+        // the driver does with such a stream, it must not do it in the way of the others)
+        {
+            let mut others: Vec<(u64, Vec<u8>)> = vec![];
+            for ty in [0x21u64, 0x21 + 0x1f * 3, 0x42, 0x02, 0x03] {
+                let mut b = enc_varint(ty);
+                b.extend(b"some bytes behind the stream type");
+                others.push((0, b));
+            }
+            let mut g = raw_frame(0x21, b"grease frame");
+            g.extend(raw_frame(0x21 + 0x1f, b""));
+            others.push((1, g));
+            for (i, (kind, b)) in others.iter().enumerate() {
+                if !thorough && i % 2 == 1 && i != 5 { continue; }
+                let mut args = vec![vec![0, 1, 0, 1, 1]];
+                args.push(spec(*kind, 0, 0, 2, 0));
+                args.push(b2a(b));
+                args.push(spec(0, 0, 0, 0, 0));
+                args.push(b2a(&uni_wt(0, b"uni-after-open-other-stream")));
+                args.push(spec(1, 0, 0, 0, 0));
+                args.push(b2a(&bi_wt(0, b"bi-after-open-other-stream")));
+                cs.push(Case::new(621, args, "open-other-stream-then-healthy"));
+            }
+        }
         // a stall that lasts: six seconds with one byte of the preamble, then healthy streams
         for kind in 0..2u64 {
             let b = if kind == 0 { uni_wt(0, b"") } else { bi_wt(0, b"") };
